@@ -326,6 +326,48 @@ class Products:
                 self.by_owner.setdefault(_owner(a), []).append((a, label))
 
 
+# ---- cross-process reproducibility: the same call with the same integer seed in fresh interpreters ----------------
+XPROC_SPECS = [
+    # (label, module, function, positional arguments, keyword arguments)
+    ("probvec", "quantecon.random", "probvec", [3, 4], {}),
+    ("sample_without_replacement", "quantecon.random", "sample_without_replacement", [7, 3], {"num_trials": 2}),
+    ("random_stochastic_matrix k<n", "quantecon.markov.random", "random_stochastic_matrix", [6, 2], {}),
+    ("random_stochastic_matrix sparse k<n", "quantecon.markov.random", "random_stochastic_matrix", [5, 3], {"sparse": True}),
+    ("random_stochastic_matrix k=n", "quantecon.markov.random", "random_stochastic_matrix", [4], {}),
+    ("random_markov_chain k<n", "quantecon.markov.random", "random_markov_chain", [5, 2], {}),
+    ("random_markov_chain sparse", "quantecon.markov.random", "random_markov_chain", [4, 3], {"sparse": True}),
+    ("random_discrete_dp", "quantecon.markov.random", "random_discrete_dp", [3, 2], {"k": 2}),
+    ("random_discrete_dp sparse", "quantecon.markov.random", "random_discrete_dp", [4, 2], {"k": 1, "sparse": True}),
+    ("random_tournament_graph", "quantecon._graph_tools", "random_tournament_graph", [6], {}),
+    ("random_game", "quantecon.game_theory.random", "random_game", [(2, 3)], {}),
+    ("covariance_game", "quantecon.game_theory.random", "covariance_game", [(2, 3), 0.3], {}),
+    ("random_polymatrix_game", "quantecon.game_theory.random", "random_polymatrix_game", [(2, 3, 2)], {}),
+    ("random_pure_actions", "quantecon.game_theory.random", "random_pure_actions", [(5, 6, 7)], {}),
+    ("random_mixed_actions", "quantecon.game_theory.random", "random_mixed_actions", [(2, 3)], {}),
+    ("blotto_game", "quantecon.game_theory.game_generators", "blotto_game", [2, 3, 0.5], {}),
+    ("ranking_game", "quantecon.game_theory.game_generators", "ranking_game", [4], {"steps": 7}),
+    ("tournament_game", "quantecon.game_theory.game_generators", "tournament_game", [5, 2], {}),
+    ("unit_vector_game", "quantecon.game_theory.game_generators", "unit_vector_game", [4], {}),
+    ("unit_vector_game avoid", "quantecon.game_theory.game_generators", "unit_vector_game", [3], {"avoid_pure_nash": True}),
+]
+
+XPROC_CHILD = r"""
+import sys, json, hashlib, importlib
+from harness.c18 import canon
+jobs = json.loads(sys.stdin.read())
+out = []
+for label, mod, fn, args, kwargs, seed in jobs:
+    try:
+        f = getattr(importlib.import_module(mod), fn)
+        args = [tuple(a) if isinstance(a, list) else a for a in args]
+        obj = f(*args, random_state=seed, **kwargs)
+        out.append(hashlib.sha256(repr(canon(obj)).encode()).hexdigest())
+    except Exception as e:
+        out.append("EXC:%s:%s" % (type(e).__name__, str(e)[:100]))
+print("DIGESTS " + json.dumps(out))
+"""
+
+
 def make_force(rng, kind):
     """uniform-forcing functions; the returned arrays stay inside [0, 1)"""
     if kind == "raw":
@@ -1557,6 +1599,82 @@ def run(ctx, only=None):
                 ctx.count("seeds:none-global-checked")
 
     seeds_block()
+
+    # ---- the same integer seed in other interpreter processes ---------------------------------------------------------
+    # (`./check` fixes PYTHONHASHSEED=0 for this process; a generator whose output depends on the interpreter's hash salt,
+    #  on the working directory or on byte-code caching is reproducible here and nowhere else)
+    @case
+    def xproc_block():
+        import hashlib
+        import importlib
+        import json
+        import subprocess
+        import sys
+        import tempfile
+        from . import common
+        specs = list(XPROC_SPECS)
+        if not ctx.thorough:
+            always = [sp for sp in specs if sp[0] in ("random_stochastic_matrix k<n", "random_markov_chain k<n")]
+            rest = [sp for sp in specs if sp not in always]
+            rng.shuffle(rest)
+            specs = always + rest[:6]
+        jobs = [[lab, mod, fn, args, kw, rng.randrange(2 ** 31)] for (lab, mod, fn, args, kw) in specs for _ in range(ctx.n(1, 2))]
+        # in this process
+        here = []
+        for lab, mod, fn, args, kw, seed in jobs:
+            f = getattr(importlib.import_module(mod), fn)
+            obj = f(*[tuple(a) if isinstance(a, list) else a for a in args], random_state=seed, **kw)
+            here.append(hashlib.sha256(repr(canon(obj)).encode()).hexdigest())
+        cache = os.environ.get("NUMBA_CACHE_DIR") or (common.numba_cache_dir() if hasattr(common, "numba_cache_dir") else "")
+        scratch = tempfile.mkdtemp(prefix="c18-xproc-")
+        children = [("1", {"PYTHONDONTWRITEBYTECODE": "1"}, "/tmp"),
+                    ("2", {"PYTHONDONTWRITEBYTECODE": None, "PYTHONPYCACHEPREFIX": os.path.join(scratch, "pyc")}, scratch),
+                    ("random", {"PYTHONDONTWRITEBYTECODE": "1"}, "/")]
+        procs = []
+        for hs, extra, cwd in children:
+            env = dict(os.environ, PYTHONHASHSEED=hs, PYTHONPATH=common.REPO + os.pathsep + common.VERIF)
+            if cache:
+                env["NUMBA_CACHE_DIR"] = cache
+            for k_, v_ in extra.items():
+                if v_ is None:
+                    env.pop(k_, None)
+                else:
+                    env[k_] = v_
+            p = subprocess.Popen([sys.executable, "-c", XPROC_CHILD], env=env, cwd=cwd, stdin=subprocess.PIPE,
+                                 stdout=subprocess.PIPE, stderr=subprocess.STDOUT, text=True)
+            p.stdin.write(json.dumps(jobs))
+            p.stdin.close()
+            procs.append((hs, cwd, p))
+        results = {}
+        for hs, cwd, p in procs:
+            try:
+                out = p.stdout.read()
+                p.wait(timeout=100)
+            except Exception as e:
+                out = "child failed: %r" % (e,)
+            lines = [l for l in out.splitlines() if l.startswith("DIGESTS ")]
+            if not lines:
+                ctx.notes.append("cross-process child (PYTHONHASHSEED=%s) did not answer: %s" % (hs, out[-300:]))
+                ctx.count("xproc:child-did-not-answer")
+                continue
+            results[hs] = json.loads(lines[0][8:])
+        import shutil
+        shutil.rmtree(scratch, ignore_errors=True)
+        for t, (lab, mod, fn, args, kw, seed) in enumerate(jobs):
+            ctx.count("xproc:calls-compared")
+            digs = {"this process (PYTHONHASHSEED=%s)" % os.environ.get("PYTHONHASHSEED", "unset"): here[t]}
+            for hs, d in results.items():
+                digs["child PYTHONHASHSEED=%s" % hs] = d[t]
+            if len(set(digs.values())) != 1:
+                ctx.spec_fail("seed_reproducibility_across_processes",
+                              "%s(%s, random_state=%d): the same integer seed gives different products in different interpreter "
+                              "processes: %s" % (lab, ", ".join([repr(a) for a in args] + ["%s=%r" % kv for kv in kw.items()]), seed,
+                                                 {k_: v_[:12] for k_, v_ in digs.items()}),
+                              {"generator": lab, "module": mod, "function": fn, "args": args, "kwargs": kw, "seed": seed,
+                               "hash_seeds": ["1", "2", "random"], "digests": digs})
+        ctx.count("xproc:children", len(results))
+
+    xproc_block()
 
     ctx.assumptions.append("NumPy's bit generators and distributions (uniform, integers, normal) are inputs of the model; "
                            "the IEEE fact floor(r*m) < m for doubles r < 1 is checked on the code at r = 1-2^-53, not proved")
